@@ -1,5 +1,5 @@
 /-
-  Helper lemmas for C18 (sparse writer, plain writes, coder loop). Core Lean only.
+  Helper lemmas for C18 (POSIX write algebra, the sparse writer's invariant). Core Lean only.
 -/
 import XzVerif.Model.Sparse
 
@@ -8,12 +8,36 @@ namespace XzVerif.Sparse
 @[simp] theorem zeros_length (n : Nat) : (zeros n).length = n := by simp [zeros]
 
 theorem zeros_add (a b : Nat) : zeros (a + b) = zeros a ++ zeros b := by
-  simp [zeros, List.replicate_add]
+  simp [zeros]
 
-theorem zeros_succ_snoc (n : Nat) : zeros n ++ [0] = zeros (n + 1) := by
-  simp [zeros, List.replicate_succ']
+theorem overwriteAt_of_split {c p r : List UInt8} {off : Nat} (hp : p.length = off)
+    (h : c ++ zeros (off - c.length) = p ++ r) (buf : List UInt8) :
+    overwriteAt c off buf = p ++ buf ++ r.drop buf.length := by
+  subst hp
+  simp only [overwriteAt, h]
+  simp [List.drop_append]
 
-/-- A buffer accepted by `is_sparse` is a run of zero bytes. -/
+theorem overwriteAt_split (c : List UInt8) (off : Nat) :
+    ∃ p r, p.length = off ∧ c ++ zeros (off - c.length) = p ++ r := by
+  refine ⟨(c ++ zeros (off - c.length)).take off, (c ++ zeros (off - c.length)).drop off, ?_, ?_⟩
+  · simp; omega
+  · simp
+
+theorem overwriteAt_past_end (c buf : List UInt8) (k : Nat) :
+    overwriteAt c (c.length + k) buf = c ++ zeros k ++ buf := by
+  have := overwriteAt_of_split (c := c) (p := c ++ zeros k) (r := []) (off := c.length + k) (by simp) (by simp) buf
+  simpa using this
+
+theorem overwriteAt_overwriteAt (c a b : List UInt8) (off : Nat) :
+    overwriteAt (overwriteAt c off a) (off + a.length) b = overwriteAt c off (a ++ b) := by
+  obtain ⟨p, r, hp, h⟩ := overwriteAt_split c off
+  rw [overwriteAt_of_split hp h a, overwriteAt_of_split hp h (a ++ b)]
+  have h2 : (p ++ a ++ List.drop a.length r) ++ zeros (off + a.length - (p ++ a ++ List.drop a.length r).length)
+      = (p ++ a) ++ List.drop a.length r := by
+    have : off + a.length - (p ++ a ++ List.drop a.length r).length = 0 := by simp; omega
+    rw [this]; simp [zeros]
+  rw [overwriteAt_of_split (p := p ++ a) (r := List.drop a.length r) (by simp [hp]) h2 b]
+  simp [List.drop_drop]
 theorem isSparse_eq_zeros {buf : List UInt8} (h : isSparse buf = true) : buf = zeros buf.length := by
   induction buf with
   | nil => simp [zeros]
@@ -25,34 +49,100 @@ theorem isSparse_eq_zeros {buf : List UInt8} (h : isSparse buf = true) : buf = z
     simp only [List.length_cons, zeros, List.replicate_succ]
     congr 1
 
-theorem isSparse_zeros (n : Nat) : isSparse (zeros n) = true := by
-  simp [isSparse, zeros]
+/-- Invariant of the sparse writer on a regular file that was positioned at its end:
+    the file followed by the pending hole is the initial content followed by everything handed to `io_write`. -/
+structure Inv (c W : List UInt8) (s : St) : Prop where
+  reg : s.dest.kind = .regular
+  noApp : s.dest.flags.append = false
+  atEnd : s.dest.offset = s.dest.content.length
+  data : s.dest.content ++ zeros s.pending = c ++ W
+  sparse : s.trySparse = true
 
-/-- Writing at or past the end of a regular file: the gap reads as zeros, the data follows. -/
-theorem overwriteAt_past_end (c buf : List UInt8) (k : Nat) :
-    overwriteAt c (c.length + k) buf = c ++ zeros k ++ buf := by
-  simp [overwriteAt]
-
-theorem overwriteAt_length (c buf : List UInt8) (off : Nat) :
-    (overwriteAt c off buf).length = max (max c.length off) (off + buf.length) := by
-  simp [overwriteAt]
+theorem write_at_end {d : Dest} (hreg : d.kind = .regular) (hna : d.flags.append = false) (k : Nat)
+    (hoff : d.offset = d.content.length + k) (buf : List UInt8) :
+    (d.write buf).content = d.content ++ zeros k ++ buf ∧ (d.write buf).offset = (d.write buf).content.length
+    ∧ (d.write buf).kind = .regular ∧ (d.write buf).flags = d.flags := by
+  simp [Dest.write, hreg, hna, hoff, overwriteAt_past_end]
   omega
 
-/-- Two consecutive writes are one write of the concatenation (offset semantics). -/
-theorem overwriteAt_overwriteAt (c a b : List UInt8) (off : Nat) :
-    overwriteAt (overwriteAt c off a) (off + a.length) b = overwriteAt c off (a ++ b) := by
-  apply List.ext_getElem
-  · simp [overwriteAt_length]; omega
-  · intro i h1 h2
-    simp only [overwriteAt, List.getElem_append, List.length_append, List.length_take, List.length_drop,
-      zeros_length, List.getElem_take, List.getElem_drop, zeros, List.getElem_replicate, List.length_replicate]
-    split <;> split <;> (try split) <;> (try split) <;> (try split) <;> (try split) <;>
-      first
-        | rfl
-        | (congr 1; omega)
-        | omega
-        | (simp_all; done)
-        | skip
-    all_goals (first | (congr 1; omega) | omega | rfl | skip)
+theorem ioWriteBuf_inv0 {c W : List UInt8} {s : St} (hreg : s.dest.kind = .regular) (hna : s.dest.flags.append = false)
+    (k : Nat) (hoff : s.dest.offset = s.dest.content.length + k) (hd : s.dest.content ++ zeros k = c ++ W)
+    (hp : s.pending = 0) (hs : s.trySparse = true) (buf : List UInt8) (hne : buf ≠ [] ∨ k = 0) :
+    Inv c (W ++ buf) (ioWriteBuf s buf) := by
+  unfold ioWriteBuf
+  split
+  · rename_i hb
+    have hb' : buf = [] := by simpa using hb
+    subst hb'
+    have hk : k = 0 := by simpa using hne
+    subst hk
+    exact ⟨hreg, hna, by simpa using hoff, by simpa [hp] using hd, hs⟩
+  · obtain ⟨h1, h2, h3, h4⟩ := write_at_end hreg hna k hoff buf
+    refine ⟨h3, by simp [h4, hna], h2, ?_, hs⟩
+    show (s.dest.write buf).content ++ zeros s.pending = c ++ (W ++ buf)
+    rw [h1, hp, ← List.append_assoc, ← hd]; simp [zeros]
+
+theorem ioWrite_inv (cfg : Cfg) (hB : 0 < cfg.bufSize) {c W : List UInt8} {s : St} (h : Inv c W s) (buf : List UInt8) :
+    (ioWrite cfg s buf).2 = false ∧ Inv c (W ++ buf) (ioWrite cfg s buf).1 := by
+  unfold ioWrite
+  rw [if_pos h.sparse]
+  split
+  · -- the buffer becomes part of the pending hole
+    rename_i hc
+    simp only [Bool.and_eq_true, beq_iff_eq, decide_eq_true_eq] at hc
+    refine ⟨rfl, ⟨h.reg, h.noApp, h.atEnd, ?_, h.sparse⟩⟩
+    have hz := isSparse_eq_zeros hc.1.2
+    show s.dest.content ++ zeros (s.pending + buf.length) = c ++ (W ++ buf)
+    rw [zeros_add, ← List.append_assoc, h.data, ← hz, List.append_assoc]
+  · rename_i hc1
+    split
+    · -- size == 0
+      rename_i hc
+      simp only [Bool.and_eq_true, beq_iff_eq] at hc
+      have : buf = [] := List.eq_nil_of_length_eq_zero hc.2
+      subst this
+      exact ⟨rfl, by simpa using h⟩
+    · rename_i hc2
+      have hne : buf ≠ [] := by
+        intro hb; subst hb
+        simp at hc2
+        omega
+      split
+      · -- pending hole, then data
+        rename_i hp
+        simp only [Dest.seekCur, h.reg]
+        refine ⟨trivial, ?_⟩
+        apply ioWriteBuf_inv0 (k := s.pending)
+        · rfl
+        · exact h.noApp
+        · simp [h.atEnd]
+        · exact h.data
+        · rfl
+        · exact h.sparse
+        · exact Or.inl hne
+      · rename_i hp
+        have hp0 : s.pending = 0 := by simpa using hp
+        refine ⟨rfl, ?_⟩
+        apply ioWriteBuf_inv0 (k := 0) h.reg h.noApp (by simp [h.atEnd]) (by simpa [hp0] using h.data) hp0 h.sparse
+        exact Or.inr rfl
+
+
+theorem ioWrites_inv (cfg : Cfg) (hB : 0 < cfg.bufSize) {c : List UInt8} (ws : List (List UInt8)) :
+    ∀ {W : List UInt8} {s : St}, Inv c W s →
+      (ioWrites cfg s ws).2 = false ∧ Inv c (W ++ ws.flatten) (ioWrites cfg s ws).1 := by
+  induction ws with
+  | nil => intro W s h; simpa [ioWrites] using h
+  | cons b bs ih =>
+    intro W s h
+    obtain ⟨h1, h2⟩ := ioWrite_inv cfg hB h b
+    unfold ioWrites
+    split
+    · rename_i s' he
+      rw [he] at h1
+      cases h1
+    · rename_i s' he
+      rw [he] at h2
+      have := ih h2
+      simpa [List.append_assoc] using this
 
 end XzVerif.Sparse
